@@ -3,6 +3,8 @@
 // resolved callees, ADTs, evaluated consts, statics) of the local crates to JSON facts.
 // It judges nothing; every rule lives in /verif/engine/anl and /verif/rules (Python).
 extern crate rustc_abi;
+extern crate rustc_data_structures;
+extern crate rustc_session;
 extern crate rustc_driver;
 extern crate rustc_hir;
 extern crate rustc_interface;
@@ -420,6 +422,7 @@ impl<'tcx> Cx<'tcx> {
             ("kind", esc(&format!("{:?}", kind))),
             ("parent", opt(parent)),
             ("coroutine", body.coroutine.is_some().to_string()),
+            ("is_async_fn", (matches!(kind, DefKind::Fn | DefKind::AssocFn) && tcx.asyncness(did).is_async()).to_string()),
             ("arg_count", body.arg_count.to_string()),
             ("span", self.span(body.span)),
             ("locals", arr(locals)),
@@ -429,8 +432,36 @@ impl<'tcx> Cx<'tcx> {
     }
 }
 
+// Every `mir_built` body is copied the moment it is created: type-checking one function can demand the coroutine witnesses of
+// another (`tokio::spawn(helper(..))` needs `helper`'s future to be Send), which builds *and steals* that function's MIR before the
+// export loop gets to it. Overriding the provider makes the copy independent of visiting order.
+type MirBuiltFn = for<'tcx> fn(TyCtxt<'tcx>, LocalDefId) -> &'tcx rustc_data_structures::steal::Steal<Body<'tcx>>;
+static ORIG_MIR_BUILT: std::sync::OnceLock<MirBuiltFn> = std::sync::OnceLock::new();
+thread_local! {
+    static BUILT: std::cell::RefCell<std::collections::HashMap<LocalDefId, Body<'static>>> = std::cell::RefCell::new(std::collections::HashMap::new());
+}
+
+fn capturing_mir_built<'tcx>(tcx: TyCtxt<'tcx>, did: LocalDefId) -> &'tcx rustc_data_structures::steal::Steal<Body<'tcx>> {
+    let orig = ORIG_MIR_BUILT.get().expect("original mir_built provider");
+    let steal = orig(tcx, did);
+    let copy: Body<'tcx> = steal.borrow().clone();
+    // lifetime erased for storage only; the copy is handed back under 'tcx while the same TyCtxt is alive (after_expansion)
+    let copy: Body<'static> = unsafe { std::mem::transmute(copy) };
+    BUILT.with(|b| {
+        b.borrow_mut().insert(did, copy);
+    });
+    steal
+}
+
 struct Cb;
 impl Callbacks for Cb {
+    fn config(&mut self, config: &mut rustc_interface::interface::Config) {
+        config.override_queries = Some(|_sess: &rustc_session::Session, providers: &mut rustc_middle::util::Providers| {
+            let _ = ORIG_MIR_BUILT.set(providers.queries.mir_built);
+            providers.queries.mir_built = capturing_mir_built;
+        });
+    }
+
     fn after_expansion<'tcx>(&mut self, _c: &Compiler, tcx: TyCtxt<'tcx>) -> Compilation {
         let krate = tcx.crate_name(LOCAL_CRATE).to_string();
         let wanted = std::env::var("MIRDUMP_CRATES").unwrap_or_else(|_| "anytls_rs,anytls_client,anytls_server".into());
@@ -448,13 +479,15 @@ impl Callbacks for Cb {
             if !matches!(kind, DefKind::Fn | DefKind::AssocFn | DefKind::Closure) {
                 continue;
             }
-            let steal = tcx.mir_built(did);
-            if steal.is_stolen() {
-                skipped.push(esc(&cx.path(did.to_def_id())));
-                continue;
+            let _ = tcx.mir_built(did); // forces creation (and with it the capture) if nobody asked for it yet
+            let captured: Option<Body<'static>> = BUILT.with(|b| b.borrow_mut().remove(&did));
+            match captured {
+                Some(body) => {
+                    let body: Body<'tcx> = unsafe { std::mem::transmute(body) };
+                    cloned.push((did, body));
+                }
+                None => skipped.push(esc(&cx.path(did.to_def_id()))),
             }
-            let body: Body<'tcx> = steal.borrow().clone();
-            cloned.push((did, body));
         }
         // Phase 2: export (constant evaluation / instance resolution may now steal freely).
         for (did, body) in &cloned {
